@@ -1,7 +1,7 @@
-; harness ListingAtStartUp assert L3-listed-iff-requested-matching-and-permitted expected unsat
+; harness ListingAfterDynamicCreate assert L3-listed-iff-requested-matching-and-permitted expected unsat
 (set-logic ALL)
-(declare-const perm_Wallet1_acc1 Bool)
-(assert perm_Wallet1_acc1)
-(define-fun t56 () Bool (not perm_Wallet1_acc1))
-(assert t56)
+(declare-const perm_Wallet1_acc9 Bool)
+(assert perm_Wallet1_acc9)
+(define-fun t38 () Bool (not perm_Wallet1_acc9))
+(assert t38)
 (check-sat)
